@@ -1546,10 +1546,11 @@ coap_send_lkd(coap_session_t *session, coap_pdu_t *pdu) {
 
     if (coap_get_block_b(session, pdu, COAP_OPTION_Q_BLOCK2, &block)) {
       coap_remove_option(pdu, COAP_OPTION_Q_BLOCK2);
-      coap_insert_option(pdu, COAP_OPTION_BLOCK2,
-                         coap_encode_var_safe(buf, sizeof(buf),
-                                              (block.num << 4) | (0 << 3) | block.szx),
-                         buf);
+      if (!coap_insert_option(pdu, COAP_OPTION_BLOCK2,
+                              coap_encode_var_safe(buf, sizeof(buf),
+                                                   (block.num << 4) | (0 << 3) | block.szx),
+                              buf))
+        goto error;
       coap_log_debug("Replaced option Q-Block2 with Block2\n");
       /* Need to update associated lg_xmit */
       coap_lg_xmit_t *lg_xmit;
@@ -1570,10 +1571,11 @@ coap_send_lkd(coap_session_t *session, coap_pdu_t *pdu) {
     }
     if (coap_get_block_b(session, pdu, COAP_OPTION_Q_BLOCK1, &block)) {
       coap_remove_option(pdu, COAP_OPTION_Q_BLOCK1);
-      coap_insert_option(pdu, COAP_OPTION_BLOCK1,
-                         coap_encode_var_safe(buf, sizeof(buf),
-                                              (block.num << 4) | (block.m << 3) | block.szx),
-                         buf);
+      if (!coap_insert_option(pdu, COAP_OPTION_BLOCK1,
+                              coap_encode_var_safe(buf, sizeof(buf),
+                                                   (block.num << 4) | (block.m << 3) | block.szx),
+                              buf))
+        goto error;
       coap_log_debug("Replaced option Q-Block1 with Block1\n");
       /* Need to update associated lg_xmit */
       coap_lg_xmit_t *lg_xmit;
